@@ -374,7 +374,12 @@ func c10RunSequence(run *mon.Run, f *dkgFixture, seq []int, r *rand.Rand, states
 	if len(kept) == 0 {
 		return
 	}
-	calls := f.concretise(r, kept)
+	c10JudgeCalls(run, f, f.concretise(r, kept), states, mu)
+}
+
+// c10JudgeCalls runs concrete calls and judges them against the model (and the twin run).
+func c10JudgeCalls(run *mon.Run, f *dkgFixture, calls []concreteCall, states map[string]bool, mu *sync.Mutex) {
+	st := stN
 	role := "participant"
 	if f.asDealer {
 		role = "dealer"
@@ -498,6 +503,10 @@ func C10(run *mon.Run) {
 	var mu sync.Mutex
 	var wg sync.WaitGroup
 	sem := make(chan struct{}, 16)
+	var fixtures0 []*dkgFixture
+	for _, x := range fixtures {
+		fixtures0 = append(fixtures0, x.f)
+	}
 	// exhaustive enumeration, chunked by first two symbols
 	total := 0
 	for l := 1; l <= maxLen; l++ {
@@ -591,11 +600,85 @@ func C10(run *mon.Run) {
 			}
 		}
 	}
+	c10Directed(run, fixtures0, states, &mu)
 	c10ConstructorGrid(run)
 	run.Extra["model_states_visited"] = len(states)
 	run.Require(len(states) == 5+5+3, fmt.Sprintf("model states visited: %d of 13 (N,R0,R1,R2,E for Qual and JF; N,R0,E for plain VSS)", len(states)))
 	run.Require(run.Counter("exhaustive.sequences") == int64(6*total), "exhaustive enumeration incomplete")
 	run.Require(run.Counter("twin-runs") > 1000, "too few twin runs")
+}
+
+// c10Directed: protocol-shaped sequences that random concretisation rarely produces, built from the
+// companions' real messages: the dealer's genuine vector (and share) arrive, complaints are raised and
+// left unanswered or answered, both timeouts pass, End() succeeds or fails for each documented reason -
+// and then the instance must be over in every case: not running, every later call a state-transition
+// error, a second End() refused.
+func c10Directed(run *mon.Run, fixtures []*dkgFixture, states map[string]bool, mu *sync.Mutex) {
+	for _, f := range fixtures {
+		if f.asDealer && f.p != pJF {
+			continue
+		}
+		var vector, share, answerMe []byte
+		d := f.dealer
+		if f.p == pJF {
+			d = (f.me + 1) % f.n
+		}
+		for _, m := range f.validBcast[d] {
+			if len(m) > 0 && m[0] == sim.TagVector && vector == nil {
+				vector = m
+			}
+			if len(m) == 34 && m[0] == sim.TagAnswer {
+				answerMe = m
+			}
+		}
+		if sh := f.validPrivate[d]; len(sh) > 0 {
+			share = sh[0]
+		}
+		if vector == nil {
+			continue
+		}
+		other := (d + 1) % f.n
+		if other == f.me {
+			other = (other + 1) % f.n
+		}
+		complaintOther := []byte{sim.TagComplaint, byte(d)}
+		hb := func(o int, m []byte) concreteCall { return concreteCall{sym: symHBValid, idx: o, payload: m} }
+		hp := func(o int, m []byte) concreteCall { return concreteCall{sym: symHPValid, idx: o, payload: m} }
+		start := concreteCall{sym: symStart, seed: bytes.Repeat([]byte{0x33}, 32)}
+		nt := concreteCall{sym: symTimeout}
+		end := concreteCall{sym: symEnd}
+		tail := []concreteCall{{sym: symRunning}, end, {sym: symTimeout}, hb(d, vector), {sym: symFDIn, idx: other}, end}
+		var seqs [][]concreteCall
+		add := func(body ...concreteCall) {
+			s := append([]concreteCall{start}, body...)
+			if f.p == pVSS {
+				// no timeouts in plain Feldman VSS
+				var t []concreteCall
+				for _, c := range s {
+					if c.sym != symTimeout {
+						t = append(t, c)
+					}
+				}
+				s = t
+			}
+			seqs = append(seqs, append(append(s, end), tail...))
+		}
+		add(hb(d, vector), nt, nt)                                          // share never arrives: own complaint unanswered
+		add(hb(d, vector), hp(d, share), nt, nt)                            // everything fine
+		add(hp(d, share), hb(d, vector), nt, nt)                            // share before vector
+		add(hb(d, vector), hp(d, share), hb(other, complaintOther), nt, nt) // another participant's complaint unanswered
+		add(hb(d, vector), hp(d, share), nt, hb(other, complaintOther), nt) // ... raised in the second round
+		add(nt, hb(d, vector), nt)                                          // vector late
+		add(hb(d, vector), nt, hb(d, answerMe), nt)                         // own complaint answered
+		add(hb(d, vector), hb(d, answerMe), nt, nt)                         // answer before the complaint
+		add(hb(d, vector), hb(d, vector), hp(d, share), nt, nt)             // vector twice
+		add(nt, nt)                                                         // nothing at all
+		for _, s := range seqs {
+			c10JudgeCalls(run, f, s, states, mu)
+			run.Count("directed.sequences", 1)
+		}
+	}
+	run.Shape("directed-sequences")
 }
 
 // c10ConstructorGrid: the three constructors accept exactly size in [2, 254], threshold in [1, size-1]
